@@ -1062,6 +1062,19 @@ class Nexus(object):
         self._nodes = {"__root__": RootNode()}
         self._root_ref = weakref.ref(self._nodes["__root__"])  # convenience
 
+    @staticmethod
+    def _depends_on(node, other):
+        """Return True if `node` is `other` or has `other` among its direct or indirect children."""
+        _todo, _seen = [node], set()
+        while _todo:
+            _n = _todo.pop()
+            if _n is other:
+                return True
+            if _n not in _seen:
+                _seen.add(_n)
+                _todo.extend(_n.get_children())
+        return False
+
     def add(self, node, add_children=True, existing_behavior="fail"):
         """Add a node to the nexus.
 
@@ -1113,6 +1126,11 @@ class Nexus(object):
             if existing_behavior == "fail":
                 raise ValueError("Node '{}' already exists.".format(node.name))
             if existing_behavior == "replace":
+                # check for cycles before modifying the graph: the parents of the existing node
+                # become parents of the new node
+                for _parent in self._nodes[node.name].get_parents():
+                    if self._depends_on(node, _parent):
+                        raise ValueError("Dependent node cycle detected ({0} -> {1} -> {0})".format(node.name, _parent.name))
                 if add_children:
                     # add all dependent children to the nexus first
                     for _child in node.get_children():
@@ -1372,6 +1390,11 @@ class Nexus(object):
             raise ValueError(
                 "Cannot add dependency: the following nodes passed to " "`depends_on` do not exist: {}".format(", ".join(map(repr, _not_found)))
             )
+
+        # check for cycles before modifying the graph
+        for _dep in depends_on:
+            if self._depends_on(self.get(_dep), _node):
+                raise ValueError("Dependent node cycle detected ({0} -> {1} -> {0})".format(name, _dep))
 
         # add dependent node `name` as a parent of each node in `depends_on`
         for _dep in depends_on:
